@@ -393,9 +393,11 @@ func genScenario(t *rapid.T) sim.BScenario {
 		case 0:
 			st.Method = rapid.SampledFrom([]string{"GET", "PUT", "DELETE"}).Draw(t, "method")
 		case 1:
-			st.CType = rapid.SampledFrom([]string{"text/plain", "-", "application/json; charset=iso-8859-1", "application/xml", "application/json; charset=UTF-8"}).Draw(t, "ctype")
+			st.CType = rapid.SampledFrom([]string{"text/plain", "-", "application/json; charset=iso-8859-1", "application/xml", "application/json; charset=UTF-8",
+				"application/json; Charset=iso-8859-1", "application/json; CHARSET=utf-16", "application/json; profile=rpc; charset=utf-16", "application/json ;charset=latin1",
+				`application/json; charset="iso-8859-1"`, "application/jsonx", "application/json+x; charset=utf-8"}).Draw(t, "ctype")
 		case 2:
-			st.CType = rapid.SampledFrom([]string{"application/json; charset=utf-8", "application/json;charset=utf8", "Application/JSON"}).Draw(t, "okctype")
+			st.CType = rapid.SampledFrom([]string{"application/json; charset=utf-8", "application/json;charset=utf8", "Application/JSON", "application/json; profile=x; charset=utf-8", "application/json; Charset=utf-8", `application/json; charset="utf-8"`}).Draw(t, "okctype")
 		case 3:
 			st.Body = engine.Bytes(rapid.SampledFrom([]string{`{`, ``, `[1,`, `nul`, `{"jsonrpc":"2.0","id":1,"method":"ret"}}`}).Draw(t, "badjson"))
 			sc.Steps = append(sc.Steps, st)
